@@ -6,7 +6,8 @@
 // stdout: one record per statement, TAB separated:
 //           <level:code,...>;<hex canonical r_ | _>;<hex raw>:<hex canonical>;...      (one pair per name)
 //         followed, when the child died, by a last field CRASH <sig> | TIMEOUT | OOM | EXCEPTION ... | EXIT n
-// Every history runs in a forked child with a 16 MB stack, 1 GB address space and a watchdog;
+// Every history runs in a forked child with a 16 MB stack, 1 GB address space and a watchdog
+// (10 s + 0.1 s per statement; under the address sanitizer 90 s + 1 s per statement and no address space limit);
 // progress is written to a shared page so that what happened before a crash is not lost.
 #include "sqfrt.hpp"
 #include "runtime/d_array.h"
@@ -51,10 +52,13 @@ static std::string canon(const sqf::runtime::value& v)
 }
 
 // the address sanitizer reserves its shadow memory as address space: no RLIMIT_AS under it
+// and everything (the registration of ~3000 operators for every history first of all) is several times slower
 #if defined(__SANITIZE_ADDRESS__)
 static const size_t MEM_MB = 0;
+static const int TIMEOUT_MS = 90000, PER_STMT_MS = 1000;
 #else
 static const size_t MEM_MB = 1024;
+static const int TIMEOUT_MS = 10000, PER_STMT_MS = 100;
 #endif
 struct Shared { size_t len; char buf[1]; };
 static const size_t SHARED_SIZE = 8u << 20;
@@ -128,7 +132,7 @@ int main(int, char**)
                 put(rec);
             }
             return "DONE";
-        }, 8000, MEM_MB, 16);
+        }, TIMEOUT_MS + PER_STMT_MS * (int)f.size(), MEM_MB, 16);
         std::string out(sh->buf, sh->len);
         if (res != "DONE") { if (!out.empty()) out += "\t"; out += res; }
         for (auto& c : out) if (c == '\n') c = ' ';
